@@ -321,3 +321,38 @@ Theorem C12_enums_match_generated :
   content_statuses ++ skipped_content_statuses = BASE_CONTENT_STATUSES.
 Proof. exact enums_match_generated. Qed.
 Print Assumptions C12_enums_match_generated.
+
+(* ---------------------------------------------------------------- from_dict is a function of the dictionary alone *)
+(* Decoding the same dictionary twice gives the same outcome, for every class
+   and every value: the first call leaves the argument as it was
+   (C12_input_untouched), so the second call sees the same dictionary. *)
+Theorem C12_decode_twice : forall idf swhid_str swhid_parse dateparse c v,
+  from_dict idf swhid_str swhid_parse dateparse c (snd (from_dict idf swhid_str swhid_parse dateparse c v)) =
+  from_dict idf swhid_str swhid_parse dateparse c v.
+Proof. exact decode_twice. Qed.
+Print Assumptions C12_decode_twice.
+
+(* The same two statements for the dispatching route BaseContent.from_dict. *)
+Theorem C12_input_untouched_BaseContent :
+  forall idf (swhid_str : swhid_kind -> text -> bytes -> text) (swhid_parse : swhid_kind -> text -> result (text * bytes))
+         dateparse v, snd (fd_BaseContent idf dateparse v) = v.
+Proof. exact input_untouched_BaseContent. Qed.
+Print Assumptions C12_input_untouched_BaseContent.
+
+Theorem C12_decode_twice_BaseContent :
+  forall idf (swhid_str : swhid_kind -> text -> bytes -> text) (swhid_parse : swhid_kind -> text -> result (text * bytes))
+         dateparse v,
+  fd_BaseContent idf dateparse (snd (fd_BaseContent idf dateparse v)) = fd_BaseContent idf dateparse v.
+Proof. exact decode_twice_BaseContent. Qed.
+Print Assumptions C12_decode_twice_BaseContent.
+
+(* Content of those statements: SkippedContent.from_dict without its private
+   copy pops "data" from the caller's dictionary (argument modified), and an
+   invalid dictionary rejected by the first call is accepted by the second. *)
+Theorem C12_skipped_nocopy_refuted :
+  (exists v, snd (fd_SkippedContent_nocopy (fun _ _ => Ok []) v) <> v) /\
+  (exists v, let r1 := fd_SkippedContent_nocopy (fun _ _ => Ok []) v in
+             fst r1 = Err ValueError /\
+             exists o, fst (fd_SkippedContent_nocopy (fun _ _ => Ok []) (snd r1)) = Ok o).
+Proof. exact skipped_nocopy_refuted. Qed.
+Print Assumptions C12_skipped_nocopy_refuted.
